@@ -47,13 +47,17 @@ func genC15(repo string) (string, error) {
 	}
 	sopt := goast.SkelOpt{
 		Calls: set("Load", "LoadRange", "Save", "Remove", "SaveServiceGCSafePoint", "initServiceGCSafePointForGCWorker",
-			"ParseUint", "FormatUint", "Unmarshal", "Marshal", "Join"),
+			"ParseUint", "FormatUint", "Unmarshal", "Marshal", "Join", "checkServiceID", "Contains"),
 		Assigns: set("hasGCWorker", "min", "ExpiredAt", "key"), Conds: true}
 	for _, fn := range []string{"SaveGCSafePoint", "LoadGCSafePoint", "SaveServiceGCSafePoint", "RemoveServiceGCSafePoint",
 		"initServiceGCSafePointForGCWorker", "LoadMinServiceGCSafePoint"} {
 		if err := o.skeleton(st, "Storage", fn, "skel_"+fn, sopt); err != nil {
 			return "", err
 		}
+	}
+	// the id check added by "fix: reject service ids that are not a single path element ..."
+	if err := o.skeleton(st, "", "checkServiceID", "skel_checkServiceID", sopt); err != nil {
+		return "", err
 	}
 	g, err := goast.Load(repo, "server/grpc_service.go")
 	if err != nil {
